@@ -21,7 +21,8 @@ func init() {
 		Rule: "graph-level gradient monitor: seeded random straight-line programs (3-40 operations over Scale/Sin/Cos/Tanh/Exp/Pow/Add/Sub/Mul/Div/Sum-,MeanAlong/Reshape/Transpose/UnSqueeze/Flatten/Slice/Concat/Patch/MatMul/Dot, leaves tracked or not at random, operand choice biased towards results that already have a consumer, same node used twice by one op) are executed on the real library once per root (every tensor of the program is tried as root; a sample of 8 roots for programs longer than 16); after BackPropagate(root) EVERY tensor's Gradient() is compared with the reverse-topological reference tape (nil-ness, shape, value). " +
 			"Second family: 2-4 sub-programs over shared leaves only, back-propagated in turn; leaves must hold the sum. Third family: ladders h<-a*h+b*h and fan-out chains of depth 8..64 (256 in thorough). " +
 			"Bounded-application clause: the verif hook counts backward-rule applications per BackPropagate; invariant total <= 4E+4 and no edge more than 4 times (E = upper bound on back edges incl. implicit Broadcast nodes); the callback aborts the walk as soon as the bound is exceeded. Hook-free twin: malloc count of BackPropagate on ladders of depth 10..18 must stay <= 20 x (mallocs per edge at depth 3) x E. " +
-			"Non-trivial: the root reaches an interior node with >= 2 consumers and a tracked leaf; distinct = (max fan-out, number of reconvergent nodes, depth, number of instructions, root). Later additions: explicit Broadcast (factor 1), order statistics / spread / ElMax / ElMin / Log / Cosh / Tan / Squeeze in the op mix, scale factors 1, -1 and 0; an endurance case of 70 000 checked back-propagations in one process. Comparison is judged against the reference tape run on absolute values; programs whose reference gradients exceed 1e8 get no verdict.",
+			"Non-trivial: the root reaches an interior node with >= 2 consumers and a tracked leaf; distinct = (max fan-out, number of reconvergent nodes, depth, number of instructions, root). Later additions: explicit Broadcast (factor 1), order statistics / spread / ElMax / ElMin / Log / Cosh / Tan / Squeeze in the op mix, scale factors 1, -1 and 0; an endurance case of 70 000 checked back-propagations in one process. Comparison is judged against the reference tape run on absolute values; programs whose reference gradients exceed 1e8 get no verdict." +
+			" Round 4: graphs over the SAME leaf objects (tracked parameters and untracked constants) built and back-propagated one after the other with the tracked leaves reset in between; Patch with a different same-shape source or a block of another node in the generator; every slice argument is overwritten as soon as a call returns.",
 		Assumptions: []string{
 			"operands of binary operations have equal shapes (expansion factor 1): expansion semantics are C07's subject and carry a recorded finding",
 			"values are kept inside the differentiable region and |v| <= 50 by the value-aware generator",
@@ -329,15 +330,20 @@ func c01SharedLeaves(k *fw.K) {
 		leaves = append(leaves, b.leaf(shape, i == 0 || k.Rng.Intn(3) > 0))
 	}
 	nsub := 2 + k.Rng.Intn(3)
-	var roots []int
+	var roots, starts []int
 	for s := 0; s < nsub; s++ {
 		allowed := append([]int(nil), leaves...)
 		n := 1 + k.Rng.Intn(8)
 		start := len(b.p)
+		starts = append(starts, start)
 		for len(b.p)-start < n {
 			allowed = append(allowed, b.step(allowed)...)
 		}
 		roots = append(roots, len(b.p)-1)
+	}
+	if k.Index%2 == 1 {
+		c01Sequential(k, b, nl, starts, roots)
+		return
 	}
 	if k.Rng.Intn(3) == 0 { // a leaf back-propagated directly, possibly twice
 		roots = append(roots, leaves[0], leaves[0])
@@ -377,6 +383,68 @@ func c01SharedLeaves(k *fw.K) {
 		if msg := checkGrads(ts, acc, fmt.Sprintf("after back-propagation %d of %d (root %d)", n+1, len(roots), root)); msg != "" {
 			k.Failf("%s", msg)
 			return
+		}
+	}
+}
+
+// c01Sequential: the same leaf OBJECTS (tracked parameters and untracked constants) serve several graphs one after the
+// other, the way a training loop uses them: build graph s, back-propagate it, compare every gradient of that graph, give
+// the tracked leaves a fresh context (ResetGradContext(true)); the untracked constants are simply used again.
+func c01Sequential(k *fw.K, b *progBuilder, nl int, starts, roots []int) {
+	p, vals := b.p, b.vals
+	k.Case = c01case{Family: "shared-leaves, graphs built and back-propagated one after the other (tracked leaves reset in between)", Prog: p, Roots: roots}
+	k.Key("sequential/%d-leaves/%d-graphs/%d-instr", nl, len(roots), len(p))
+	k.Count("sequential_leaf_reuse_histories", 1)
+	k.Sample()
+	ts := make([]tensor.Tensor, len(p))
+	run := func(from, to int) (err error) {
+		for i := from; i < to && err == nil; i++ {
+			xs := make([]tensor.Tensor, len(p[i].In))
+			for q, j := range p[i].In {
+				xs[q] = ts[j]
+			}
+			ts[i], err = rt.Exec(p[i], xs)
+		}
+		return
+	}
+	var err error
+	if pn := call(func() { err = run(0, nl) }); pn != nil || err != nil {
+		k.Failf("leaf construction failed: panic=%v err=%v", pn, err)
+		return
+	}
+	for s, root := range roots {
+		if pn := call(func() { err = run(starts[s], root+1) }); pn != nil || err != nil {
+			k.Failf("graph %d: forward execution failed: panic=%v err=%v", s+1, pn, err)
+			return
+		}
+		if e := rt.Compare(ts[root], vals[root], 1e-9, 1e-9, nil, 0); e != nil {
+			k.Failf("graph %d: forward value differs from the reference: %v", s+1, e)
+			return
+		}
+		_, berr, exceeded, pn := backpropCounted(ts[root], 4*edgeBound(p, root)+4)
+		if exceeded != nil || pn != nil || berr != nil {
+			k.Failf("graph %d (root %d): back-propagation failed: bound=%v panic=%v err=%v", s+1, root, exceeded, pn, berr)
+			return
+		}
+		k.Count("backprops", 1)
+		want, scale := p.GradS(vals, root, nil, ref.RuleSum)
+		ill := false
+		for _, w := range want {
+			ill = ill || (w != nil && !(maxAbsAll(w) < 1e8))
+		}
+		view := make([]tensor.Tensor, len(p))
+		copy(view, ts[:nl])
+		copy(view[starts[s]:root+1], ts[starts[s]:root+1])
+		if ill {
+			k.Count("cases_skipped_ill_conditioned", 1)
+		} else if msg := checkGradsScaled(view, want, scale, fmt.Sprintf("graph %d of %d over the same leaf objects (root %d)", s+1, len(roots), root)); msg != "" {
+			k.Failf("%s", msg)
+			return
+		}
+		for i := 0; i < nl; i++ {
+			if p[i].Tracked {
+				ts[i].ResetGradContext(true)
+			}
 		}
 	}
 }
